@@ -44,6 +44,9 @@ func (x *Exec) rope(st *State, t string) []seg {
 	case strings.HasPrefix(t, "bzeros"):
 		n, err := strconv.ParseInt(t[6:], 10, 64)
 		if err == nil {
+			if n == 0 {
+				return nil
+			}
 			return []seg{{kind: "zeros", n: n}}
 		}
 	case strings.HasPrefix(t, "(bcat "):
@@ -132,18 +135,24 @@ func (x *Exec) constLen(st *State, t string) (int64, bool) {
 	}
 	if st != nil {
 		pre := "(= (blen " + t + ") "
-		for _, f := range st.pc {
-			if strings.HasPrefix(f, pre) && isNumeral(f[len(pre):len(f)-1]) {
+		var scan func(f string) (int64, bool)
+		scan = func(f string) (int64, bool) {
+			if strings.HasPrefix(f, pre) && strings.HasSuffix(f, ")") && isNumeral(f[len(pre):len(f)-1]) {
 				n, _ := strconv.ParseInt(f[len(pre):len(f)-1], 10, 64)
 				return n, true
 			}
-			// conjunctions from requires clauses
-			if i := strings.Index(f, pre); i >= 0 {
-				rest := f[i+len(pre):]
-				if j := strings.Index(rest, ")"); j > 0 && isNumeral(rest[:j]) {
-					n, _ := strconv.ParseInt(rest[:j], 10, 64)
-					return n, true
+			if strings.HasPrefix(f, "(and ") {
+				for _, c := range splitTop(f[5 : len(f)-1]) {
+					if n, ok := scan(c); ok {
+						return n, true
+					}
 				}
+			}
+			return 0, false
+		}
+		for _, f := range st.pc {
+			if n, ok := scan(f); ok {
+				return n, true
 			}
 		}
 	}
